@@ -272,6 +272,9 @@ pub enum FaultMode {
     AllLater,
     /// every second call from the k-th on fails
     EverySecond,
+    /// only `flush` fails - everything written before it has reached the screen: the k-th flush (`at`
+    /// counts flushes here) and the n-1 flushes after it
+    Flushes(u8),
 }
 
 #[derive(Clone, Copy, Debug)]
@@ -298,6 +301,8 @@ pub struct Inner {
     /// fallible terminal calls so far (moves, writes, clear, flush)
     pub ncalls: usize,
     pub nflush: usize,
+    /// flush calls so far, failed ones included
+    pub flush_attempts: usize,
     pub nqueries: usize,
     pub log_calls: bool,
     pub calls: Vec<Call>,
@@ -335,6 +340,7 @@ impl VTerm {
             grid: Grid::new(rows, cols),
             ncalls: 0,
             nflush: 0,
+            flush_attempts: 0,
             nqueries: 0,
             log_calls: false,
             calls: vec![],
@@ -446,8 +452,13 @@ impl VTerm {
         let mut g = self.lock();
         let idx = g.ncalls;
         g.ncalls += 1;
+        let flush_idx = g.flush_attempts;
+        if matches!(call, Call::Flush) {
+            g.flush_attempts += 1;
+        }
         if let Some(f) = g.fault {
             let fire = match f.mode {
+                FaultMode::Flushes(n) => matches!(call, Call::Flush) && flush_idx >= f.at && flush_idx < f.at + n as usize,
                 FaultMode::Once => idx == f.at,
                 FaultMode::AllLater => idx >= f.at,
                 FaultMode::EverySecond => idx >= f.at && (idx - f.at) % 2 == 0,
